@@ -580,6 +580,75 @@ func worker(w *runner.W) {
 			}
 		}
 		w.Max("max_long_segments", int64(maxN))
+		// nesting depth ("braces nest"): calls nested d deep, alone, with sibling
+		// arguments before and after the nested call, and with a lookup innermost;
+		// d = 1..70 and around the powers of two (a recursion budget or a
+		// fixed-size stack in the compiler is only reachable with a depth sweep),
+		// each followed by a shallow template on the same long-lived builder
+		var depths []int
+		for d := 1; d <= 70; d++ {
+			depths = append(depths, d)
+		}
+		maxD := 1025
+		if w.Quick() {
+			maxD = 257
+		}
+		for k := 127; k <= maxD; k = (k+1)*2 - 1 {
+			depths = append(depths, k, k+1, k+2)
+		}
+		for _, d := range depths {
+			for shape := 0; shape < 4; shape++ {
+				if !own() {
+					continue
+				}
+				if w.Expired() {
+					return
+				}
+				var tb, vb strings.Builder
+				for i := 0; i < d; i++ {
+					name := "f"
+					if (i+shape)%3 == 2 {
+						name = "g"
+					}
+					switch shape {
+					case 0, 3:
+						tb.WriteString("{" + name + " ")
+						vb.WriteString(name + "(")
+					case 1:
+						tb.WriteString("{" + name + " a" + itoa(i%7) + " ")
+						vb.WriteString(name + "(a" + itoa(i%7) + "|")
+					case 2:
+						tb.WriteString("{" + name + " {0} ")
+						vb.WriteString(name + "(" + matchValue(0) + "|")
+					}
+				}
+				if shape == 3 {
+					tb.WriteString("{1}")
+					vb.WriteString(matchValue(1))
+				} else {
+					tb.WriteString("x")
+					vb.WriteString("x")
+				}
+				for i := 0; i < d; i++ {
+					if shape == 2 {
+						tb.WriteString(" z}")
+						vb.WriteString("|z)")
+					} else {
+						tb.WriteString("}")
+						vb.WriteString(")")
+					}
+				}
+				tpl, want := tb.String(), vb.String()
+				w.SetCase(func() any { return Case{Kind: "expect", Template: tpl, Want: want} })
+				ok := c.expect(tpl, want, "C09/long/calls-nested-deeply", fmt.Sprintf("depth %d, shape %d", d, shape))
+				// whatever the deep template did to the builder, a shallow one still compiles
+				ok = c.expect("{f {0} {g x}}|{k}", "f("+matchValue(0)+"|g(x))|"+keyValue("k"), "C09/long/shallow-template-after-a-deep-one", fmt.Sprintf("after depth %d, shape %d", d, shape)) && ok
+				w.Eval(ok)
+				w.Add("long_templates", 2)
+				w.Outcome("deep", itoa(shape), itoa(d))
+			}
+		}
+		w.Max("max_nesting_depth", int64(depths[len(depths)-1]))
 	}
 
 	// ---- I: integer-like lone tokens around the integer boundaries (S2)
@@ -801,7 +870,7 @@ func main() {
 			if tp.fullDepth2 {
 				full = fmt.Sprintf("at most %d deviations", tp.fullBound)
 			}
-			return fmt.Sprintf("(A) every string with 0..%d symbols over {%s} and 1..%d symbols over {%s}, rendered with minimal escapes (only \\ { }) and with every character escaped, alone and as `E{0}E{k}`, must evaluate to the string; the same for 9 strings per alias rune R of an ASCII character c (R, RR, aRb, Rc, cR, aRcRb, \\R, R\\, {R}) over %s; (B) expression trees f(args)/g(args) with 1..3 arguments over leaves {a, \"b c\", \"\", {0}, {1}, {k}, p{1}} and, below f, calls g(1..2 leaves); printed with every combination of argument separator {%s}, optional quoting of words, lookups and quote-free calls, leading/trailing blank inside the braces, and literal neighbours (`xTy {1}{0}`): all combinations for depth-1 trees (three arguments: %s) and depth-2 trees with one argument, at most %d non-default choices for depth-2 trees with 2 arguments and one inner call, at most %d for 2 arguments/two inner calls, at most %d for 3 arguments/one inner call, 3 arguments with more inner calls: %s; evaluated with recording functions in a private KeyBuilder (optimisation on and off) against the value of the tree; (W) punctuation words: for every character p of {%s} (all printable ASCII punctuation that is not syntax, typographic and fullwidth quotes) the leaves %s; for each such leaf x and every leaf y of (B) the trees f(x), g(x,x), f(g(x)), f(g(x),x), f(x,g(x)), f(g(x),g(x)), f(g(x,x)), f(x,y), f(y,x), g(x,y,x), g(y,x,y), f(g(x),y), f(y,g(x)), f(g(x,y)), f(g(y,x)), f(x,g(y)), f(g(y),x) printed with the variants of (B): f(x) every combination, two-argument depth-1 trees and f(g(x)) %s, three-argument trees %s, other depth-2 trees %s; a word is just text / a key of exactly that name; (C) every single-character deletion and every insertion of one of {%s} at every position of the plain print of the depth-1 trees (prints with at most %d non-default choices) and, in the thorough tier, of the depth-2 trees with at most 2 arguments, judged by the reference reading; (E) trees whose leaves need escaping inside call arguments or are unquoted non-ASCII words: leaves {c\\d, C:\\\\temp\\new, o{p}, l<LF>m, <TAB>z<CR>, q\"r, 's t', \\\"\\{\\ \\n, voilà, Ångström, Škoda, 😅🤠, é, {voilà}, {Å}, {Š😅}, {1}, w\\{0}, {k}<LF>{{à}} (UTF-8 encodings containing the bytes 0x85/0xA0, a 4-byte rune); trees: each lookup alone, f(x), f(g(x)), f(g(f(x))), f(x,y), f(g(x),y), f(y,g(x)), f(g(x,y)) for all leaves x,y; printed by applying, for every enclosing pass (template scan, argument split, argument compilation: 2d+1 passes at call depth d), the inverse of that pass to all text that is not syntax of that level; every combination of quoted/unquoted per argument, blank/tab separators, control characters raw or as \\n \\t \\r, escape style {a backslash only where a pass needs one; in every pass a backslash before every literal character except the letters n t r; that only in the innermost pass (the leaf's own text and a key's two passes)}, and literal neighbours `\\\\T\\{{0}` (depth-2 trees with two leaves: %s); additionally for every alias rune R of c: key {aR} alone, f({aR}), f(g({aR},R)) [not for R that is Unicode white space], f(R), f(g(R)), f(g(f(R))), f(m), f(g(m)) with m = aRcRb, and with each partner y of the first %d of {s t, {1}, c\\d}: f(m,y), f(y,m) in every combination and f(g(m),y), f(y,g(m)), f(g(m,y)), f(g(y,m)) with %s (white space other than blank/tab/CR/LF is written escaped when unquoted); must evaluate to the tree value; (D) every string with 0..%d symbols over {%s} and the strings with a tab among 1..%d symbols over {%s} and the strings with an apostrophe or backtick among 1..%d symbols over {%s}, judged by the reference reading (value / must be a compile error / not settled); (L) templates of 1..%d segments laid out by 10 cycles of {literal, constant call, group, key, call on a group}, as the template itself, as one quoted argument of a call, and as that many separate arguments of one call, must evaluate to the concatenation / the call the segments dictate; (I) integer-like lone tokens: every value b+o for b in {%s}, o in -%d..+%d (-%d..+%d for the boundaries marked *, whose upper neighbours a wrapped-around or truncated index would alias to a small group), printed with sign {none,-,+} and with %s leading zeros and zero-padded to %s digits, each in the templates {%s} (T the token); the context logs every look-up: a template without its own braces around T keeps T as text, otherwise every look-up performed must be the group whose number is exactly the token's value or the key named exactly the token's text (for a value no int can hold: the key, or nothing at all with an empty result), the result must be the one that reading gives, tokens -?[0-9]{1,9} must be the group look-up, and Compile must not report an error; (H) histories on ONE KeyBuilder that starts with only g registered: every sequence of exactly %d operations (all shorter ones are their prefixes) over {%s}, with optimisation on and off; after every Compile: a function of the template is unregistered at that moment <=> compile error, otherwise the value is the tree value with the currently registered versions (recording functions f1/f2/h1/h2 name their version), and error presence, error text and BuildKey output equal those of a FRESH KeyBuilder given the same function table; states = distinct operation prefixes, transitions = operations applied to the builder under test; no panic anywhere. non-trivial = (A) non-empty string evaluated, (B,W,E,I) compiled and compared, (C,D) the reference reading settles the template (value or must-error) [D: and it contains a statement], (H) the sequence has a Compile after a registration and every check passed",
+			return fmt.Sprintf("(A) every string with 0..%d symbols over {%s} and 1..%d symbols over {%s}, rendered with minimal escapes (only \\ { }) and with every character escaped, alone and as `E{0}E{k}`, must evaluate to the string; the same for 9 strings per alias rune R of an ASCII character c (R, RR, aRb, Rc, cR, aRcRb, \\R, R\\, {R}) over %s; (B) expression trees f(args)/g(args) with 1..3 arguments over leaves {a, \"b c\", \"\", {0}, {1}, {k}, p{1}} and, below f, calls g(1..2 leaves); printed with every combination of argument separator {%s}, optional quoting of words, lookups and quote-free calls, leading/trailing blank inside the braces, and literal neighbours (`xTy {1}{0}`): all combinations for depth-1 trees (three arguments: %s) and depth-2 trees with one argument, at most %d non-default choices for depth-2 trees with 2 arguments and one inner call, at most %d for 2 arguments/two inner calls, at most %d for 3 arguments/one inner call, 3 arguments with more inner calls: %s; evaluated with recording functions in a private KeyBuilder (optimisation on and off) against the value of the tree; (W) punctuation words: for every character p of {%s} (all printable ASCII punctuation that is not syntax, typographic and fullwidth quotes) the leaves %s; for each such leaf x and every leaf y of (B) the trees f(x), g(x,x), f(g(x)), f(g(x),x), f(x,g(x)), f(g(x),g(x)), f(g(x,x)), f(x,y), f(y,x), g(x,y,x), g(y,x,y), f(g(x),y), f(y,g(x)), f(g(x,y)), f(g(y,x)), f(x,g(y)), f(g(y),x) printed with the variants of (B): f(x) every combination, two-argument depth-1 trees and f(g(x)) %s, three-argument trees %s, other depth-2 trees %s; a word is just text / a key of exactly that name; (C) every single-character deletion and every insertion of one of {%s} at every position of the plain print of the depth-1 trees (prints with at most %d non-default choices) and, in the thorough tier, of the depth-2 trees with at most 2 arguments, judged by the reference reading; (E) trees whose leaves need escaping inside call arguments or are unquoted non-ASCII words: leaves {c\\d, C:\\\\temp\\new, o{p}, l<LF>m, <TAB>z<CR>, q\"r, 's t', \\\"\\{\\ \\n, voilà, Ångström, Škoda, 😅🤠, é, {voilà}, {Å}, {Š😅}, {1}, w\\{0}, {k}<LF>{{à}} (UTF-8 encodings containing the bytes 0x85/0xA0, a 4-byte rune); trees: each lookup alone, f(x), f(g(x)), f(g(f(x))), f(x,y), f(g(x),y), f(y,g(x)), f(g(x,y)) for all leaves x,y; printed by applying, for every enclosing pass (template scan, argument split, argument compilation: 2d+1 passes at call depth d), the inverse of that pass to all text that is not syntax of that level; every combination of quoted/unquoted per argument, blank/tab separators, control characters raw or as \\n \\t \\r, escape style {a backslash only where a pass needs one; in every pass a backslash before every literal character except the letters n t r; that only in the innermost pass (the leaf's own text and a key's two passes)}, and literal neighbours `\\\\T\\{{0}` (depth-2 trees with two leaves: %s); additionally for every alias rune R of c: key {aR} alone, f({aR}), f(g({aR},R)) [not for R that is Unicode white space], f(R), f(g(R)), f(g(f(R))), f(m), f(g(m)) with m = aRcRb, and with each partner y of the first %d of {s t, {1}, c\\d}: f(m,y), f(y,m) in every combination and f(g(m),y), f(y,g(m)), f(g(m,y)), f(g(y,m)) with %s (white space other than blank/tab/CR/LF is written escaped when unquoted); must evaluate to the tree value; (D) every string with 0..%d symbols over {%s} and the strings with a tab among 1..%d symbols over {%s} and the strings with an apostrophe or backtick among 1..%d symbols over {%s}, judged by the reference reading (value / must be a compile error / not settled); (L) templates of 1..%d segments laid out by 10 cycles of {literal, constant call, group, key, call on a group}, as the template itself, as one quoted argument of a call, and as that many separate arguments of one call, must evaluate to the concatenation / the call the segments dictate, and calls nested d deep for d = 1..70 and 2^k-1, 2^k, 2^k+1 up to 257 (thorough 1025) in 4 shapes (alone, with a sibling argument before, with a lookup before and a word after, with a lookup innermost), each followed by a shallow template on the same long-lived builder; (I) integer-like lone tokens: every value b+o for b in {%s}, o in -%d..+%d (-%d..+%d for the boundaries marked *, whose upper neighbours a wrapped-around or truncated index would alias to a small group), printed with sign {none,-,+} and with %s leading zeros and zero-padded to %s digits, each in the templates {%s} (T the token); the context logs every look-up: a template without its own braces around T keeps T as text, otherwise every look-up performed must be the group whose number is exactly the token's value or the key named exactly the token's text (for a value no int can hold: the key, or nothing at all with an empty result), the result must be the one that reading gives, tokens -?[0-9]{1,9} must be the group look-up, and Compile must not report an error; (H) histories on ONE KeyBuilder that starts with only g registered: every sequence of exactly %d operations (all shorter ones are their prefixes) over {%s}, with optimisation on and off; after every Compile: a function of the template is unregistered at that moment <=> compile error, otherwise the value is the tree value with the currently registered versions (recording functions f1/f2/h1/h2 name their version), and error presence, error text and BuildKey output equal those of a FRESH KeyBuilder given the same function table; states = distinct operation prefixes, transitions = operations applied to the builder under test; no panic anywhere. non-trivial = (A) non-empty string evaluated, (B,W,E,I) compiled and compared, (C,D) the reference reading settles the template (value or must-error) [D: and it contains a statement], (H) the sequence has a Compile after a registration and every check passed",
 				tp.litLen, show(tp.litAlphabet), tp.litLen2, show(tp.litAlphabet2), aliasRuleText(tier != "thorough"), show(tp.seps), d1, tp.b21, tp.b22, tp.b31, full,
 				punctRuleText(), punctLeafRule(tier != "thorough"), boundText(tp.pw2), boundText(tp.pw3), boundText(tp.pwD),
 				show(tp.mutIns), tp.mutBound, eb, tp.aliasPartner, boundText(tp.aliasBound), tp.rawLen, show(tp.rawAlphabet), tp.rawLen2, show(tp.rawAlphabet2), tp.rawLen3, show(tp.rawAlphabet3), map[bool]int{true: 100, false: 300}[tier != "thorough"],
